@@ -14,3 +14,11 @@ package zerocopy
 
 //@ func MaxPacketSizeForAddr
 //@   inline
+
+// Interface methods resolved per call by a case split over the module's implementing types (each
+// implementation is used through its own contract or body); any other dynamic type is havocked.
+//@ func (UDPSessionServer).Info
+//@   dispatch
+
+//@ func (UDPNATServer).Info
+//@   dispatch
